@@ -192,7 +192,8 @@ func (cl *Client) enableAutoSessionRenewal(s *session) {
 			s.mux.RLock()
 			w := (s.endTime.Sub(time.Now().UTC()) * 5) / 6
 			s.mux.RUnlock()
-			if w < 0 {
+			if w <= 0 {
+				// nothing left to wait for: a zero wait would only spin on the refresh
 				return
 			}
 			timer = time.NewTimer(w)
